@@ -6,6 +6,8 @@ import (
 	"go/types"
 	"sort"
 	"strings"
+
+	"golang.org/x/tools/go/ssa"
 )
 
 func init() {
@@ -89,6 +91,8 @@ func protoTables(p *Prog, r *Report, R string) {
 }
 
 func runC15(p *Prog, r *Report) {
+	connConfiguration(p, r, "C15.13/conn-configuration")
+	r.Floor("C15.13/conn-configuration", "c15.conn_method_calls", 10)
 	frameBuffersLocal(p, r, "C15.12/frame-buffers-local")
 	r.Floor("C15.12/frame-buffers-local", "frame_buffers.C15.12/frame-buffers-local", 2)
 	r.Describe("C15.8/header-split-order", "receivers that split the leading word(s) of the body into the header take the header first, then advance the body")
@@ -106,4 +110,65 @@ func runC15(p *Prog, r *Report) {
 	wsRules(p, r, "C15.5/websocket")
 	r.Describe("C15.6/handshaker", "every new stream connection is handshaken on its own goroutine; late or failed handshakes are closed")
 	handshakerRules(p, r, "C15.6/handshaker")
+}
+
+// connConfiguration (C15.13): the transports call, on the operating system's connections and
+// listeners, only methods that move bytes, close, or describe the endpoint — plus the three
+// TCP knobs that do not change what arrives (no-delay, keep-alive).  Anything else on that
+// surface changes the stream a peer sees: SO_LINGER 0 turns Close into a reset that discards
+// what Send has already reported as written, a deadline turns a slow peer into a truncated
+// frame, CloseWrite/CloseRead half-close under the other direction.
+var connMethodsAllowed = map[string]bool{
+	"Read": true, "Write": true, "Close": true, "LocalAddr": true, "RemoteAddr": true, "Addr": true,
+	"Accept": true, "AcceptTCP": true, "AcceptUnix": true, "ConnectionState": true, "File": true,
+	"SetNoDelay": true, "SetKeepAlive": true, "SetKeepAlivePeriod": true, "SetUnlinkOnClose": true,
+	"String": true, "Network": true, "Handshake": true, "HandshakeContext": true, "SyscallConn": true,
+	"ReadFrom": true, "WriteTo": true, "NetConn": true,
+}
+
+func connConfiguration(p *Prog, r *Report, R string) {
+	r.Describe(R, "on net / crypto/tls connections and listeners the transports call only methods that move bytes, close, describe the endpoint, or set no-delay / keep-alive: no linger, deadline, buffer-size or half-close call (each changes what the peer receives for a frame that Send reported as written)")
+	n := 0
+	per := map[string]int{}
+	for _, fn := range p.Funcs {
+		rel, _ := p.FuncRel(fn)
+		if !(strings.HasPrefix(rel, "transport") || rel == "internal/core") {
+			continue
+		}
+		EachInstr(fn, func(in ssa.Instruction) {
+			c := CallOf(in)
+			if c == nil {
+				return
+			}
+			name, recv := "", ""
+			if c.IsInvoke() {
+				tn := typeShort(c.Value.Type())
+				if !(strings.HasPrefix(tn, "net.") || strings.HasPrefix(tn, "tls.")) {
+					return
+				}
+				name, recv = c.Method.Name(), tn
+			} else if sc := c.StaticCallee(); sc != nil && sc.Signature.Recv() != nil {
+				pk := pkgPathOf(sc)
+				if pk != "net" && pk != "crypto/tls" {
+					return
+				}
+				rt := recvTypeName(sc)
+				if !(strings.HasSuffix(rt, "Conn") || strings.HasSuffix(rt, "Listener") || rt == "conn") {
+					return
+				}
+				name, recv = sc.Name(), pk+"."+rt
+			} else {
+				return
+			}
+			n++
+			key := p.FuncName(fn) + "/" + recv + "." + name
+			per[key]++
+			if per[key] > 1 {
+				return
+			}
+			r.Check(connMethodsAllowed[name], R, key, p.InstrPos(in), "moves bytes, closes, describes the endpoint or sets no-delay/keep-alive",
+				recv+"."+name+" changes how the operating system delivers or discards the bytes of frames already written (linger/deadline/buffer/half-close): a frame that Send reported as sent can reach the peer truncated, or not at all")
+		})
+	}
+	r.Count("c15.conn_method_calls", n)
 }
